@@ -58,3 +58,84 @@ def memoised(program):
             if name.split('.')[-1] in MEMO_DECORATORS:
                 out.append((fn, d))
     return out
+
+
+def self_writes(m):
+    """{attr: node} for the attributes of self this method stores into,
+    deletes from, rebinds or mutates through a mutator method."""
+    from dlint.walk import MUTATORS
+    out = {}
+
+    def base_attr(n):
+        while isinstance(n, ast.Subscript):
+            n = n.value
+        if isinstance(n, ast.Attribute) and isinstance(
+                n.value, ast.Name) and n.value.id == 'self':
+            return n.attr
+        return None
+    for s in ast.walk(m.node):
+        tg = []
+        if isinstance(s, ast.Assign):
+            tg = [t for tt in s.targets for t in (
+                tt.elts if isinstance(tt, ast.Tuple) else [tt])]
+        elif isinstance(s, (ast.AugAssign, ast.AnnAssign)):
+            tg = [s.target]
+        elif isinstance(s, ast.Delete):
+            tg = s.targets
+        elif isinstance(s, ast.Call) and isinstance(s.func, ast.Attribute) \
+                and s.func.attr in MUTATORS:
+            tg = [s.func.value]
+        for t in tg:
+            a = base_attr(t)
+            if a is not None:
+                out.setdefault(a, s)
+    return out
+
+
+def check_memo_invalidation(program, rep, rule, cls, queries, tables, what):
+    """A query method may remember answers in an attribute of the object only
+    if every method that changes the queried tables forgets them again."""
+    meths = methods_of(program, cls)
+    qset, _ = called_only_from(meths, set(queries) & set(meths))
+    mutators = {}
+    for name, ms in meths.items():
+        if name in qset or name == '__init__':
+            continue
+        for m in ms:
+            wr = self_writes(m)
+            if any(t in wr for t in tables):
+                mutators[name] = (m, wr)
+    n = 0
+    for name in sorted(qset):
+        for m in meths.get(name, []):
+            n += 1
+            wr = self_writes(m)
+            bad = None
+            for attr, node in wr.items():
+                if attr in tables:
+                    bad = (node, f'the query {m.qualname} modifies the table '
+                           f'self.{attr}')
+                    break
+                # a memo is written AND consulted by the query (an attribute
+                # that is only written - a queue of deferred work - is not)
+                write_ids = {id(x) for x in ast.walk(node)}
+                consulted = any(
+                    isinstance(x, ast.Attribute) and x.attr == attr
+                    and isinstance(x.value, ast.Name) and x.value.id == 'self'
+                    and id(x) not in write_ids for x in ast.walk(m.node))
+                if not consulted:
+                    continue
+                missing = sorted(k for k, (mm, w2) in mutators.items()
+                                 if attr not in w2)
+                if missing:
+                    bad = (node, f'{m.qualname} remembers answers in '
+                           f'self.{attr}, but {", ".join(missing)} change(s) '
+                           f'the tables without forgetting them: {what}')
+                    break
+            rep.check(bad is None, rule, m.where,
+                      bad[0] if bad else m.node.name,
+                      'the query keeps no state of its own (or every table '
+                      'mutator invalidates it)', bad[1] if bad else '',
+                      line=getattr(bad[0], 'lineno', None) if bad
+                      else m.node.lineno)
+    return n
